@@ -38,16 +38,21 @@ def flatten(runs: list[list[dict[str, Any]]], sqlite: bool, mods: list[str], kil
                 if e["op"] in ("commit",):
                     ev.append(mk("commit"))
                     continue
-                m = _REC.match(os.path.basename(e["rec"])) if "/" not in e["rec"] else _REC.match(e["rec"].replace("/", "."))
+                m = _REC.match(e["rec"].replace("/", "."))
+                name = None
+                if m:
+                    name = m.group("mod")
+                    if name.endswith(".__init__"):
+                        name = name[: -len(".__init__")]      # a package's records live in <pkg>/__init__.*
                 if e["op"] == "commit_path":
                     sh = _shard(e["rec"], sqlite)
-                    mod = m.group("mod") if m and m.group("mod") in mods else ""
+                    mod = name if name in mods else ""
                     ev.append(mk("commit_path", mod, sh=sh))
                     continue
-                if not m or m.group("mod") not in mods:
+                if not m or name not in mods:
                     continue
-                shard[m.group("mod")] = _shard(e["rec"], sqlite)
-                ev.append(mk(e["op"], m.group("mod"), m.group("kind"), e["tick"], bool(e["ok"]), shard[m.group("mod")]))
+                shard[name] = _shard(e["rec"], sqlite)
+                ev.append(mk(e["op"], name, m.group("kind"), e["tick"], bool(e["ok"]), shard[name]))
             elif e["ev"] == "killed":
                 killed = True
         if killed_flags is not None:
